@@ -3,7 +3,7 @@
 
 *)
 From Coq Require Import ZArith NArith List Bool Arith.
-From NSG Require Import Base.Prelude Model.Defender Model.Coord Proofs.CoordBase Proofs.CoordInv Proofs.CoordInvConn Proofs.CoordInvDispatch Proofs.CoordInvHandler Proofs.CoordProps Proofs.CoordDirect Proofs.CoordInv2 Proofs.CoordAgentStep Proofs.CoordBarrier Proofs.CoordMeasure Proofs.CoordIsolation Proofs.CoordLimit.
+From NSG Require Import Base.Prelude Model.Defender Model.Coord Proofs.CoordBase Proofs.CoordInv Proofs.CoordInvConn Proofs.CoordInvDispatch Proofs.CoordInvHandler Proofs.CoordProps Proofs.CoordDirect Proofs.CoordInv2 Proofs.CoordAgentStep Proofs.CoordBarrier Proofs.CoordMeasure Proofs.CoordIsolation Proofs.CoordLimit Proofs.CoordKinds.
 Import ListNotations.
 
 (* the triple appended to the trajectory (action, reward, resulting view) is produced in the same step as the OK response, with the same reward *)
